@@ -26,8 +26,9 @@ import (
 // (blob sizes from a few bytes to 32.5 MiB, holes of 0 / 1 MiB / 1 MiB+1, chunk ranges around 32 MiB, compressed and
 // plain blobs), all or sampled subsets, faults (download error / short read at the k-th download, flipped byte,
 // wrong content, undecodable compression), a fallback loader with or without other copies, a callback error at the
-// k-th callback.  "repo" scenarios use Repository.LoadBlobsFromPack with the real LoadBlob fallback on a faulty
-// store.  Fn_StreamPack!RecOK (TLC) judges every record.
+// k-th callback.  "repo" scenarios (zz_verif_c43_repo_test.go) use Repository.LoadBlobsFromPack with the real LoadBlob
+// fallback on a faulty store holding several copies of the blobs (same pack / other packs, different stored
+// lengths).  Fn_StreamPack!RecOK (TLC) judges every record.
 
 type c43Blob struct {
 	tok        string
@@ -389,7 +390,7 @@ func c43Sig(rec c43Rec, sc c43Scenario) string {
 }
 
 func TestVerif_C43(t *testing.T) {
-	res := kit.NewResult("one case = one call of the real streamPack (direct: injected download function over a generated pack image) or Repository.LoadBlobsFromPack (repo: real LoadBlob fallback, faulty store): (layout of <= 6 blobs with sizes from bytes to 32.5 MiB, holes 0/37/1 MiB/1 MiB+1, compressed or not) x requested subset x fault (none, k-th download fails, short read, flipped byte at 7 positions, wrong content / undecodable compression) x fallback loader (none / with other copies for a random subset) x callback error at the k-th callback; distinct by all of these; non-trivial when at least two blobs are requested or a fault is injected")
+	res := kit.NewResult("one case = one call of the real streamPack (direct: injected download function over a generated pack image) or Repository.LoadBlobsFromPack (repo: real LoadBlob fallback, faulty store, repositories written in 1-3 sessions with compression off/auto/fastest/max and 0-2 saves of every blob per session, i.e. several copies of a blob in one pack and copies of different stored length in several packs, x streamed pack x requested subset x fault of the streamed pack (none, flipped byte in some copies, unreadable from the k-th download) x fault of every other pack with a copy (none, flipped bytes, unreadable) x callback error): (layout of <= 6 blobs with sizes from bytes to 32.5 MiB, holes 0/37/1 MiB/1 MiB+1, compressed or not) x requested subset x fault (none, k-th download fails, short read, flipped byte at 7 positions, wrong content / undecodable compression) x fallback loader (none / with other copies for a random subset) x callback error at the k-th callback; distinct by all of these; non-trivial when at least two blobs are requested or a fault is injected")
 	recs := kit.NewNDJSON("recs.ndjson")
 	defer recs.Close()
 	repo := TestRepository(t)
